@@ -541,6 +541,35 @@ impl<A: Elem, B: Elem> VecPair<A, B> {
                     (rb, rs) => OpOutcome { b: rb.map(|_| Ret::Unit), s: rs.map(|_| Ret::Unit), extra },
                 };
             }
+            VOp::RawPartsRoundTrip => {
+                let bv = self.b.take().unwrap();
+                let sv = self.s.take().unwrap();
+                let same_bump = std::ptr::eq(bv.bump(), bump);
+                let rb = b_call(move || {
+                    let mut m = std::mem::ManuallyDrop::new(bv);
+                    let (p, l, c) = (m.as_mut_ptr(), m.len(), m.capacity());
+                    let owner = m.bump();
+                    unsafe { BVec::from_raw_parts_in(p, l, c, owner) }
+                });
+                let rs = s_call(move || {
+                    let mut m = std::mem::ManuallyDrop::new(sv);
+                    let (p, l, c) = (m.as_mut_ptr(), m.len(), m.capacity());
+                    unsafe { Vec::from_raw_parts(p, l, c) }
+                });
+                let (mut bo, mut so) = (Err(()), Err(()));
+                if let Ok(x) = rb {
+                    bo = Ok(Ret::Num(x.len() as u64));
+                    self.b = Some(x);
+                }
+                if let Ok(x) = rs {
+                    so = Ok(Ret::Num(x.len() as u64));
+                    self.s = Some(x);
+                }
+                if !same_bump {
+                    extra = Some(("C13", "vec-bump-accessor-wrong-arena", String::new()));
+                }
+                return OpOutcome { b: bo, s: so, extra };
+            }
             VOp::DropVec => {
                 let bv = self.b.take().unwrap();
                 let sv = self.s.take().unwrap();
@@ -799,17 +828,64 @@ impl<A: Elem, B: Elem> VecPair<A, B> {
             }
             VOp::ShrinkToFit => (b_call(|| bv.shrink_to_fit()).map(|_| Ret::Unit), s_call(|| sv.shrink_to_fit()).map(|_| Ret::Unit)),
             VOp::CloneCmp => {
-                let rb = b_call(|| {
-                    let c = bv.clone();
-                    let r = Ret::Elems(c.iter().map(|e| (0, e.etag())).collect());
-                    drop(c);
-                    r
-                });
-                let rs = s_call(|| {
-                    let c = sv.clone();
-                    Ret::Elems(c.iter().map(|e| (0, e.etag())).collect())
-                });
+                // clone, then the comparison / view / borrowing glue, observed as one text per world
+                macro_rules! views {
+                    ($v:expr) => {{
+                        let v = $v;
+                        let mut c = v.clone();
+                        let mut out: Vec<(u32, u32)> = c.iter().map(|e| (0, e.etag())).collect();
+                        let mut flags = vec![c == *v, c == &v[..], format!("{:?}", v) == format!("{:?}", &v[..])];
+                        flags.push(AsRef::<[_]>::as_ref(v).len() == v.len());
+                        flags.push(std::borrow::Borrow::<[_]>::borrow(v).len() == v.len());
+                        flags.push((&*v).into_iter().map(|e| e.etag() as u64).sum::<u64>() == (&mut c).into_iter().map(|e| e.etag() as u64).sum::<u64>());
+                        flags.push(c.as_mut_ptr() as usize == c.as_ptr() as usize);
+                        c.as_mut_slice().reverse();
+                        flags.push(c == *v);
+                        AsMut::<[_]>::as_mut(&mut c).reverse();
+                        std::borrow::BorrowMut::<[_]>::borrow_mut(&mut c).rotate_left(if v.is_empty() { 0 } else { 1 });
+                        flags.push(c == *v);
+                        if !v.is_empty() {
+                            c.truncate(v.len() - 1);
+                            flags.push(c == *v);
+                            flags.push(c != *v);
+                            flags.push(*v == &mut c[..]);
+                        }
+                        out.extend(flags.into_iter().map(|f| (1, f as u32)));
+                        drop(c);
+                        Ret::Elems(out)
+                    }};
+                }
+                let rb = b_call(|| views!(&*bv));
+                let rs = s_call(|| views!(&*sv));
                 (rb, rs)
+            }
+            VOp::RawPush(tag) => {
+                let id = track::fresh_id();
+                let (ea, eb) = (A::mk(id, *tag), B::mk(id, *tag));
+                (
+                    b_call(|| {
+                        bv.reserve(1);
+                        let l = bv.len();
+                        unsafe {
+                            bv.as_mut_ptr().add(l).write(ea);
+                            bv.set_len(l + 1);
+                        }
+                    })
+                    .map(|_| Ret::Unit),
+                    s_call(|| {
+                        sv.reserve(1);
+                        let l = sv.len();
+                        unsafe {
+                            sv.as_mut_ptr().add(l).write(eb);
+                            sv.set_len(l + 1);
+                        }
+                    })
+                    .map(|_| Ret::Unit),
+                )
+            }
+            VOp::SetLenShrink(p) => {
+                let k = p.at(len).min(len);
+                (b_call(|| unsafe { bv.set_len(k) }).map(|_| Ret::Unit), s_call(|| unsafe { sv.set_len(k) }).map(|_| Ret::Unit))
             }
             VOp::SetIndex(p, tag) => {
                 let i = p.at(len);
@@ -852,7 +928,7 @@ impl<A: Elem, B: Elem> VecPair<A, B> {
                 // only for Copy element types (handled by exec_copy); a no-op elsewhere
                 (Ok(Ret::Unit), Ok(Ret::Unit))
             }
-            VOp::IntoIter(_) | VOp::IntoBumpSlice { .. } | VOp::IntoBoxedSlice | VOp::DropVec | VOp::Recreate(_) | VOp::DropHeldBox => unreachable!(),
+            VOp::IntoIter(_) | VOp::IntoBumpSlice { .. } | VOp::IntoBoxedSlice | VOp::DropVec | VOp::Recreate(_) | VOp::DropHeldBox | VOp::RawPartsRoundTrip => unreachable!(),
             VOp::IterHold | VOp::DrainHold(_) | VOp::IterNext { .. } | VOp::IterRelease => unreachable!(),
         };
         // C13/C18(d): after a successful reserve(n) the next n pushed elements do not move the buffer
